@@ -4,7 +4,20 @@ Tie: tfl.lattice_layer.LaplacianRegularizer / TorsionRegularizer objects and the
 they wrap, tfl.pwl_calibration_layer.LaplacianRegularizer / HessianRegularizer / WrinkleRegularizer,
 called on float64 kernels, vs Tfl.Reg.laplacian / torsion / pwlLaplacian / pwlHessian / pwlWrinkle.
 Oracle (on the real results): independent numpy reading of the documented sums, non-negativity,
-linearity in the amounts, vanishing sets."""
+linearity in the amounts, vanishing sets.
+
+Exact scope of the linearity / vanishing clauses (Props/C13Exact.lean; second audit rows 12 and 33):
+  * lattice Laplacian: additive and homogeneous in the amount VECTORS (scalars, lists, mixtures);
+  * lattice torsion: additive in SCALAR amounts; for per-dimension lists the pair (i, j) is weighted by the PRODUCT
+    l[i]*l[j], so the value is homogeneous of degree 2 in the list, affine in every single dimension's amount
+    (f(x+x') + f(0) = f(x) + f(x')) and equals the documented sum at the summed amounts - it is NOT additive in the
+    list (witness 27 != 3 + 12);
+  * reg(l1, l2) = reg(l1, 0) + reg(0, l2) for all five regularizers;
+  * PWL, is_cyclic=True: all three vanish on constant outputs and (positive amount) ONLY there; the cyclic Hessian on
+    outputs a + b*j of k rows is 2k(l1|b| + l2 k b^2) (witness (0,1,2) -> 6), the cyclic wrinkle on (0,1,4,9) is 48; the
+    clause on linear / quadratic outputs is checked on the non-cyclic form;
+  * negative amounts are accepted by the code (outside the non-negativity clause): compared with the model and the
+    documented sum; only sqrt of a negative SCALAR torsion amount raises ValueError (model: the same)."""
 import itertools
 import math
 import numpy as np
@@ -15,16 +28,27 @@ RULE = ("cases drawn from one PRNG. Lattice: rank 1-4, sizes 2-4 (unequal whenev
         "one of zero / scalar / list / tuple / list with zeros in some dimensions (dyadic k/4, occasionally int), "
         "entry point LaplacianRegularizer / TorsionRegularizer object or the lattice_lib function (both must agree); "
         "kernels dyadic/int/wide/tiny/huge plus constant, additively separable and separable+bump built in exact "
-        "dyadics. PWL: 1-8 kernel rows (1 row only cyclic), units 1-2, is_cyclic on/off, l1/l2 zero or dyadic; "
+        "dyadics. PWL: 1-8 kernel rows (1 row only cyclic), units 1-3, is_cyclic on/off, l1/l2 zero or dyadic; "
         "kernels of the same value kinds plus constant / affine / quadratic / cubic keypoint outputs. Non-trivial = "
         "the penalty is non-zero or the kernel lies in a vanishing set by construction; distinct = distinct "
-        "(family, shape, units, amount classes, kernel kind, cyclic, value hash).")
+        "(family, shape, units, amount classes, kernel kind, cyclic, value hash). "
+        "About 15% of the lattice cases carry a NEGATIVE amount (scalar or list entries): accepted by the code, outside "
+        "the non-negativity clause. Every lattice case also draws a scale factor c (homogeneity) and, for list torsion "
+        "amounts, one dimension k with two values x, x' (per-dimension affinity). PWL units 1-3; multi-unit kernels are "
+        "also evaluated column by column (per-unit sum; the cyclic wrap-around term is per column). A fixed family of "
+        "witness cases (the numbers of the counter-witness theorems of Props/C13Exact.lean) is run on every seed.")
 ASSUMPTIONS = ["float64 kernels; comparison tolerance 1e-9 relative to the magnitude bound amount*N*(4 max|w|)^p of the "
                "sum (p = 1 for l1 terms, 2 for l2 terms)",
                "a scalar torsion amount a is stored by the code as sqrt(a) per dimension and multiplied pairwise; the "
                "model uses the exact product a (difference is float rounding of sqrt)",
-               "amounts are non-negative (non-negativity and the sqrt of scalar torsion amounts need it); per-dimension "
-               "amount lists have one entry per lattice dimension"]
+               "the NON-NEGATIVITY clause is checked for non-negative amounts; negative amounts are accepted by the "
+               "code (negative values; ValueError only for sqrt of a negative scalar torsion amount) and are tied to the "
+               "model and the documented sum only; per-dimension amount lists have one entry per lattice dimension",
+               "torsion is additive in scalar amounts only; for per-dimension lists the clauses that hold are checked "
+               "(degree-2 homogeneity, per-dimension affinity, documented sum at the summed amounts)",
+               "cyclic PWL Hessian / wrinkle do not vanish on non-constant linear / quadratic outputs (wrap-around "
+               "terms): the vanishing-set clause for those is checked on the non-cyclic form; cyclic forms are checked "
+               "to vanish on constants and to be positive elsewhere"]
 
 AMT_KINDS = ["zero", "scalar", "scalar", "list", "tuple", "zeros", "zeros"]
 
@@ -45,6 +69,34 @@ def gen_amt(rng, rank, kind=None):
       vals[i] = Fraction(0)
     kind = rng.choice(["list", "tuple"])
   return dict(kind=kind, v=vals)
+
+
+def gen_neg_amt(rng, rank):
+  """an amount with a negative scalar / at least one negative list entry (accepted by the real code)."""
+  if rng.random() < 0.35:
+    return dict(kind="scalar", v=Fraction(-rng.randint(1, 12), 4))
+  vals = [Fraction(rng.choice([-1, 1, 1]) * rng.randint(1, 12), 4) for _ in range(rank)]
+  i = rng.randrange(rank)
+  vals[i] = -abs(vals[i])
+  if rank > 1 and rng.random() < 0.25:
+    vals[rng.choice([j for j in range(rank) if j != i])] = Fraction(0)
+  return dict(kind=rng.choice(["list", "tuple"]), v=vals)
+
+
+def amt_neg(a):
+  return a["v"] < 0 if a["kind"] == "scalar" else any(v < 0 for v in a["v"])
+
+
+def amt_scale(a, c):
+  if a["kind"] == "scalar":
+    return dict(kind="scalar", v=a["v"] * c)
+  return dict(kind=a["kind"], v=[v * c for v in a["v"]])
+
+
+def amt_set(a, k, x):
+  vs = list(a["v"])
+  vs[k] = x
+  return dict(kind=a["kind"], v=vs)
 
 
 def amt_py(a):
@@ -70,10 +122,11 @@ def amt_add(a, b, rank):
 
 
 def amt_cls(a):
+  neg = "-neg" if amt_neg(a) else ""
   if a["kind"] == "scalar":
-    return "zero" if a["v"] == 0 else "scalar"
+    return "zero" if a["v"] == 0 else "scalar" + neg
   z = sum(1 for v in a["v"] if v == 0)
-  return a["kind"] + ("" if z == 0 else ("+allzero" if z == len(a["v"]) else "+zeros"))
+  return a["kind"] + ("" if z == 0 else ("+allzero" if z == len(a["v"]) else "+zeros")) + neg
 
 
 def amt_parse(a):
@@ -123,8 +176,22 @@ def gen_lattice_case(rng):
     l1["int"] = True
   # second amount setting for the linearity check
   l1b, l2b = gen_amt(rng, rank), gen_amt(rng, rank)
+  api = rng.choice(["layer", "lib"])
+  # negative amounts: accepted by the code (outside the non-negativity clause)
+  if rng.random() < 0.15:
+    if rng.random() < 0.5:
+      l1 = gen_neg_amt(rng, rank)
+    else:
+      l2 = gen_neg_amt(rng, rank)
+  # homogeneity: scale factor; per-dimension affinity of the torsion: dimension k of a LIST amount, two values
+  c = rng.choice([Fraction(1, 2), Fraction(2), Fraction(3), Fraction(3, 2), Fraction(5, 4)])
+  da = None
+  lists = [k for k in ("l1", "l2") if {"l1": l1, "l2": l2}[k]["kind"] != "scalar"]
+  if rank >= 2 and lists:
+    da = dict(which=rng.choice(lists), k=rng.randrange(rank),
+              x=Fraction(rng.randint(-8, 12), 4), xp=Fraction(rng.randint(-8, 12), 4))
   return dict(family="lattice", sizes=sizes, units=units, kind=kind, w=w, l1=l1, l2=l2, l1b=l1b, l2b=l2b,
-              api=rng.choice(["layer", "lib"]))
+              api=api, c=c, da=da)
 
 
 def parse_lattice_case(c):
@@ -132,6 +199,9 @@ def parse_lattice_case(c):
   c["w"] = [[Fraction(v) for v in row] for row in c["w"]]
   for k in ("l1", "l2", "l1b", "l2b"):
     c[k] = amt_parse(c[k])
+  c["c"] = Fraction(c.get("c", 2))
+  if c.get("da"):
+    c["da"] = dict(c["da"], x=Fraction(c["da"]["x"]), xp=Fraction(c["da"]["xp"]))
   return c
 
 
@@ -168,6 +238,16 @@ def real_lattice(case):
     # split into the l1 part and the l2 part
     out[which + "_1"] = call_lat(which, case["api"], sizes, case["l1"], ZERO, wt)
     out[which + "_2"] = call_lat(which, case["api"], sizes, ZERO, case["l2"], wt)
+    # homogeneity: both amounts scaled by c
+    out[which + "_c"] = call_lat(which, case["api"], sizes, amt_scale(case["l1"], case["c"]),
+                                 amt_scale(case["l2"], case["c"]), wt)
+  da = case.get("da")
+  if da:
+    # torsion as a function of ONE dimension's amount: f(x + x'), f(x), f(x'), f(0)
+    def f(x):
+      a = {k: (amt_set(case[k], da["k"], x) if k == da["which"] else case[k]) for k in ("l1", "l2")}
+      return call_lat("tor", case["api"], sizes, a["l1"], a["l2"], wt)
+    out["tor_da"] = [f(da["x"] + da["xp"]), f(da["x"]), f(da["xp"]), f(Fraction(0))]
   return out
 
 
@@ -209,8 +289,8 @@ def bound_lattice(wf, sizes, units, l1s, l2s, torsion):
   """magnitude bound of the sum: amounts * terms * (k max|w|)^p."""
   rank = len(sizes)
   wmax = float(np.max(np.abs(wf))) if wf.size else 0.0
-  a1 = max([0.0] + [float(v) for a in l1s for v in amt_list(a, rank)])
-  a2 = max([0.0] + [float(v) for a in l2s for v in amt_list(a, rank)])
+  a1 = max([0.0] + [abs(float(v)) for a in l1s for v in amt_list(a, rank)])
+  a2 = max([0.0] + [abs(float(v)) for a in l2s for v in amt_list(a, rank)])
   if torsion:
     a1, a2 = max(a1, a1 * a1), max(a2, a2 * a2)
   n = wf.size * max(1, rank * (rank if torsion else 1))
@@ -229,7 +309,13 @@ def check_lattice(ctx, case, real, replies):
   ctx.count("lat:kind=%s" % case["kind"])
   ctx.count("lat:api=%s" % case["api"])
   ctx.count("lat:unequal" if len(set(sizes)) > 1 else "lat:equal-or-rank1")
+  neg = amt_neg(case["l1"]) or amt_neg(case["l2"])
+  neg_scalar = any(case[k]["kind"] == "scalar" and case[k]["v"] < 0 for k in ("l1", "l2"))
+  if neg:
+    ctx.count("lat:negative-amount")
   ref = dict(zip(("lap", "tor"), ref_lattice(wf, sizes, units, case["l1"], case["l2"])))
+  l1ab, l2ab = amt_add(case["l1"], case["l1b"], rank), amt_add(case["l2"], case["l2b"], rank)
+  ref_ab = dict(zip(("lap", "tor"), ref_lattice(wf, sizes, units, l1ab, l2ab)))
   vh = hash(wf.tobytes()) % 997
   nz = False
   for which, reply in zip(("lap", "tor"), replies):
@@ -247,7 +333,11 @@ def check_lattice(ctx, case, real, replies):
         ctx.agree(name)
       else:
         ctx.disagree(name, case, r, model, "error behaviour differs")
-      if isinstance(r, str):
+      # math.sqrt of a negative SCALAR torsion amount (rank > 1) is the one documented rejection (torsion_raises_iff)
+      expected_raise = which == "tor" and rank != 1 and neg_scalar and r == "ERR ValueError"
+      if expected_raise:
+        ctx.count("lat:negative-scalar-torsion-raises")
+      if isinstance(r, str) and not expected_raise:
         ctx.fail("raises", key, case, r, "regularizer raised on a valid configuration")
       continue
     s = bound_lattice(wf, sizes, units, [case["l1"]], [case["l2"]], which == "tor")
@@ -266,20 +356,60 @@ def check_lattice(ctx, case, real, replies):
     tol = 1e-9 * s
     if abs(r - ref[which]) > tol:
       ctx.fail("documented_sum", key, case, r, "documented sum = %r, regularizer = %r" % (ref[which], r))
-    if r < 0.0:
+    if r < 0.0 and not neg:
       ctx.fail("nonneg", key, case, r)
-    rb, rab, r1, r2 = (real[which + k] for k in ("_b", "_ab", "_1", "_2"))
-    if any(isinstance(v, str) for v in (rb, rab, r1, r2)):
-      ctx.fail("raises", key, case, [rb, rab, r1, r2], "regularizer raised at a derived amount setting")
+    if neg:
+      ctx.count("lat:negative-amount:%s:%s" % (which, "value<0" if r < 0.0 else "value>=0"))
+    rb, rab, r1, r2, rc = (real[which + k] for k in ("_b", "_ab", "_1", "_2", "_c"))
+    if any(isinstance(v, str) for v in (rb, rab, r1, r2, rc)):
+      ctx.fail("raises", key, case, [rb, rab, r1, r2, rc], "regularizer raised at a derived amount setting")
       continue
     if abs(r - r1 - r2) > tol:
       ctx.fail("linear_split", key, case, [r, r1, r2], "reg(l1,l2) != reg(l1,0) + reg(0,l2)")
     both_scalar = all(case[k]["kind"] == "scalar" for k in ("l1", "l2", "l1b", "l2b"))
+    sab = bound_lattice(wf, sizes, units, [l1ab], [l2ab], which == "tor")
+    sab = max(sab, bound_lattice(wf, sizes, units, [case["l1"], case["l1b"]], [case["l2"], case["l2b"]], which == "tor"))
+    # Laplacian: additive in the amount VECTORS (laplacian_linear); torsion: additive in SCALAR amounts
+    # (torsion_linear_scalar) - per-dimension torsion amounts multiply pairwise (torsion_list_not_additive)
     if which == "lap" or both_scalar:
-      sab = bound_lattice(wf, sizes, units, [case["l1"], case["l1b"]], [case["l2"], case["l2b"]], which == "tor")
       if abs(rab - r - rb) > 4e-9 * sab:
         ctx.fail("linear_add", key, case, [r, rb, rab], "reg(a+b) != reg(a) + reg(b)")
-      ctx.count("lat:linear_add_checked")
+      ctx.count("lat:linear_add_checked:" + which)
+    # ... what holds for every amount kind: the value at the summed amounts is the documented sum there
+    # (for list torsion amounts: pair weights (l+l')[i] * (l+l')[j], i.e. the bilinear expansion)
+    if abs(rab - ref_ab[which]) > 4e-9 * sab:
+      ctx.fail("documented_sum_at_summed_amounts", key, case, [rab, ref_ab[which]],
+               "documented sum at l+l' = %r, regularizer = %r" % (ref_ab[which], rab))
+    if which == "tor" and not both_scalar:
+      ctx.count("lat:tor-list-sum-" + ("nonadditive" if abs(rab - r - rb) > 4e-9 * sab else "additive-here"))
+    # homogeneity: Laplacian degree 1 in every amount; torsion degree 1 in a scalar, degree 2 in a list
+    # (laplacian_vector_smul, torsion_linear_scalar, torsion_vector_smul_sq), applied to the l1 and l2 parts
+    cf = float(case["c"])
+
+    def deg(a):
+      return 2 if (which == "tor" and a["kind"] != "scalar") else 1
+    sc = bound_lattice(wf, sizes, units, [amt_scale(case["l1"], case["c"])], [amt_scale(case["l2"], case["c"])],
+                       which == "tor")
+    want = cf ** deg(case["l1"]) * r1 + cf ** deg(case["l2"]) * r2
+    if abs(rc - want) > 4e-9 * max(sc, s):
+      ctx.fail("homogeneous", key, case, [rc, want, r1, r2, cf],
+               "reg(c*l1, c*l2) != c^d1 reg(l1,0) + c^d2 reg(0,l2) (d = 2 for torsion lists, else 1)")
+    ctx.count("lat:homogeneous_checked:%s:deg%d%d" % (which, deg(case["l1"]), deg(case["l2"])))
+    # torsion, per-dimension affinity (torsion_dim_affine_l1/_l2): f(x + x') + f(0) = f(x) + f(x')
+    if which == "tor" and case.get("da") and "tor_da" in real:
+      da = case["da"]
+      fs = real["tor_da"]
+      if any(isinstance(v, str) for v in fs):
+        ctx.fail("raises", key, case, fs, "torsion raised at a derived per-dimension amount")
+      else:
+        alts = [amt_set(case[da["which"]], da["k"], x) for x in (da["x"] + da["xp"], da["x"], da["xp"])]
+        o = "l2" if da["which"] == "l1" else "l1"
+        sd = bound_lattice(wf, sizes, units, alts if da["which"] == "l1" else [case[o]],
+                           alts if da["which"] == "l2" else [case[o]], True)
+        if abs(fs[0] + fs[3] - fs[1] - fs[2]) > 8e-9 * sd:
+          ctx.fail("dim_affine", key, case, fs, "f(x+x') + f(0) != f(x) + f(x') in dimension %d of %s"
+                   % (da["k"], da["which"]))
+        ctx.count("lat:dim_affine_checked" + (":const-part-nonzero" if fs[3] != 0.0 else ""))
     if which == "lap" and case["kind"] == "const" and r != 0.0:
       ctx.fail("vanish_constant", key, case, r)
     if which == "tor" and case["kind"] == "separable" and abs(r) > 1e-12 * s:
@@ -298,7 +428,7 @@ PWL_ORDER = dict(lap=1, hess=2, wrinkle=3)
 def gen_pwl_case(rng):
   cyc = rng.random() < 0.5
   rows = rng.choice([2, 2, 3, 3, 4, 5, 6, 7, 8] + ([1] if cyc else []))
-  units = rng.choice([1, 1, 2])
+  units = rng.choice([1, 1, 2, 2, 3])
   kind = rng.choice(VALUE_KINDS + ["const", "affine", "quadratic", "quadratic", "cubic"])
   if kind in ("const", "affine", "quadratic", "cubic"):
     deg = dict(const=0, affine=1, quadratic=2, cubic=3)[kind]
@@ -345,6 +475,13 @@ def real_pwl(case):
     out[which] = call_pwl(which, case["l1"], case["l2"], case["cyc"], xt)
     out[which + "_b"] = call_pwl(which, case["l1b"], case["l2b"], case["cyc"], xt)
     out[which + "_ab"] = call_pwl(which, case["l1"] + case["l1b"], case["l2"] + case["l2b"], case["cyc"], xt)
+    out[which + "_1"] = call_pwl(which, case["l1"], Fraction(0), case["cyc"], xt)
+    out[which + "_2"] = call_pwl(which, Fraction(0), case["l2"], case["cyc"], xt)
+    if case["units"] > 1:
+      # per unit: the same regularizer on every single column (the cyclic wrap-around height is per column:
+      # -reduce_sum(heights, axis=0))
+      out[which + "_units"] = [call_pwl(which, case["l1"], case["l2"], case["cyc"],
+                                        tf.constant(x[:, u:u + 1], dtype=tf.float64)) for u in range(case["units"])]
   return out
 
 
@@ -385,6 +522,10 @@ def check_pwl(ctx, case, real, replies):
   ctx.count("pwl:l1%s:l2%s" % ("0" if case["l1"] == 0 else "+", "0" if case["l2"] == 0 else "+"))
   xmax = float(np.max(np.abs(x)))
   nz = False
+  nonconst = any(h != 0 for col in case["cols"] for h in col[1:])
+  if cyc and units > 1:
+    ctx.count("pwl:cyclic-multiunit:" + ("differing-columns" if len({tuple(c) for c in case["cols"]}) > 1
+                                         else "equal-columns"))
   for which, reply in zip(PWL_REGS, replies):
     name = "pwl." + dict(lap="laplacian", hess="hessian", wrinkle="wrinkle")[which]
     m = PWL_ORDER[which]
@@ -392,7 +533,13 @@ def check_pwl(ctx, case, real, replies):
                l1=int(case["l1"] != 0), l2=int(case["l2"] != 0))
     r = real[which]
     toks = reply.split(" ")
-    model, spec = Fraction(toks[0]), Fraction(toks[1])
+    # model = the code-shaped value on the (rows, units) matrix (row slices, wrap-around row -reduce_sum(axis=0),
+    # reduce_sum over all entries); model_cols = the column-by-column model (pwl_*_rows_eq_columns: equal)
+    model, model_cols, spec = Fraction(toks[0]), Fraction(toks[1]), Fraction(toks[2])
+    if model != model_cols:
+      ctx.disagree(name + ".rows_vs_columns", case, fr(model), fr(model_cols), "row-shaped model != column-shaped model")
+    else:
+      ctx.agree(name + ".rows_vs_columns")
     if isinstance(r, str):
       ctx.disagree(name, case, r, fr(model), "real code raised")
       ctx.fail("raises", key, case, r)
@@ -405,8 +552,8 @@ def check_pwl(ctx, case, real, replies):
     ctx.compare(name, case, [r / s], [model / Fraction(s)], 1.0, rtol=1e-9)
     documented = which != "wrinkle" or rows >= 3
     if documented:
-      if model != spec:
-        ctx.disagree(name + ".model_vs_documented_norm", case, fr(model), fr(spec), "code-shaped model != documented norm")
+      if model_cols != spec:
+        ctx.disagree(name + ".model_vs_documented_norm", case, fr(model_cols), fr(spec), "code-shaped model != documented norm")
       else:
         ctx.agree(name + ".model_vs_documented_norm")
     if not math.isfinite(r):
@@ -425,12 +572,47 @@ def check_pwl(ctx, case, real, replies):
       ctx.fail("raises", key, case, [rb, rab])
     elif abs(rab - r - rb) > 4e-9 * bnd(case["l1"] + case["l1b"], case["l2"] + case["l2b"]):
       ctx.fail("linear_add", key, case, [r, rb, rab], "reg(a+b) != reg(a) + reg(b)")
-    # vanishing sets (kernels built exactly in dyadics: the float result is exactly zero)
+    # reg(l1, l2) = reg(l1, 0) + reg(0, l2)   (pwl_split)
+    r1, r2 = real[which + "_1"], real[which + "_2"]
+    if isinstance(r1, str) or isinstance(r2, str):
+      ctx.fail("raises", key, case, [r1, r2])
+    elif abs(r - r1 - r2) > tol:
+      ctx.fail("linear_split", key, case, [r, r1, r2], "reg(l1,l2) != reg(l1,0) + reg(0,l2)")
+    # multi-unit kernels: sum over units of the one-column regularizer (pwl_*_per_unit); for cyclic kernels this is
+    # where a wrap-around height summed over the wrong axis would show
+    if units > 1:
+      ru = real[which + "_units"]
+      if any(isinstance(v, str) for v in ru):
+        ctx.fail("raises", key, case, ru)
+      elif abs(r - sum(ru)) > 4 * tol:
+        ctx.fail("per_unit_sum", key, case, [r, ru], "reg(kernel) != sum over units of reg(column)")
+      ctx.count("pwl:per_unit_checked:" + ("cyclic" if cyc else "open"))
+    # vanishing sets (kernels built exactly in dyadics: the float result is exactly zero).  The clause on outputs
+    # linear / quadratic in the index is about the NON-cyclic form (pwl_hessian_affine, pwl_wrinkle_quadratic) ...
     deg = dict(const=0, affine=1, quadratic=2).get(case["kind"])
     if deg is not None and not cyc and deg < m and r != 0.0:
       ctx.fail("vanish_degree_%d" % deg, key, case, r, "outputs are a degree-%d polynomial of the index" % deg)
-    if deg == 0 and cyc and r != 0.0:
-      ctx.fail("vanish_constant_cyclic", key, case, r)
+    # ... the cyclic forms vanish on CONSTANT outputs (pwl_*_const_any) ...
+    if cyc and not nonconst:
+      ctx.count("pwl:cyclic-constant:" + which)
+      if r != 0.0:
+        ctx.fail("vanish_constant_cyclic", key, case, r)
+    # ... and, with a positive amount, only there (pwl_*_cyclic_zero_iff): the wrap-around terms see the jump back
+    # to the first keypoint.  (float: the terms are differences of a list that is not constant, so one is non-zero)
+    if cyc and nonconst and rows >= (3 if which == "wrinkle" else 2) and (case["l1"] > 0 or case["l2"] > 0):
+      ctx.count("pwl:cyclic-nonconstant:%s:%s" % (which, case["kind"]))
+      if not r > 0.0:
+        ctx.fail("cyclic_nonconstant_positive", key, case, r,
+                 "a cyclic regularizer with a positive amount is zero on non-constant outputs")
+    # closed form of the cyclic Hessian on outputs a + b*j, k rows: 2k(l1|b| + l2 k b^2) per unit
+    # (pwl_hessian_cyclic_affine; the instance (0,1,2), l1 = 1 is the witness value 6)
+    if cyc and which == "hess" and case["kind"] == "affine" and rows >= 2:
+      want = sum(2.0 * rows * (float(case["l1"]) * abs(float(col[1])) + float(case["l2"]) * rows * float(col[1]) ** 2)
+                 for col in case["cols"])
+      ctx.count("pwl:cyclic-hessian-affine-closed-form")
+      if abs(r - want) > tol:
+        ctx.fail("cyclic_hessian_affine_closed_form", key, case, [r, want],
+                 "cyclic Hessian on outputs a + b*j != sum_u 2k(l1|b_u| + l2 k b_u^2)")
     if case["kind"] == "cubic" and not cyc and rows >= 4 and case["l1"] != 0 and r == 0.0:
       ctx.fail("cubic_detected", key, case, r, "a cubic output sequence must have a non-zero penalty")
   ctx.case(sig=("pwl", rows, units, cyc, case["kind"], int(case["l1"] != 0), int(case["l2"] != 0),
@@ -439,12 +621,106 @@ def check_pwl(ctx, case, real, replies):
            sample=dict(case=case, real={k: real[k] for k in PWL_REGS}))
 
 
+# ---------------------------------------------------------------- witnesses (Props/C13Exact.lean)
+W2x2 = [[Fraction(v)] for v in (0, 1, 3, 7)]       # 2 x 2 lattice, one unit, twist 3
+
+
+def _lat(name, thm, which, l1, l2, expect):
+  def a(v):
+    return dict(kind="scalar", v=Fraction(v)) if not isinstance(v, list) else dict(kind="list", v=[Fraction(t) for t in v])
+  return dict(family="witness", name=name, theorem=thm, sort="lat", which=which, sizes=[2, 2], units=1, w=W2x2,
+              l1=a(l1), l2=a(l2), expect=expect)
+
+
+def _pwl(name, thm, which, l1, l2, cyc, col, expect):
+  return dict(family="witness", name=name, theorem=thm, sort="pwl", which=which, l1=Fraction(l1), l2=Fraction(l2),
+              cyc=cyc, cols=[[Fraction(v) for v in col]], expect=expect)
+
+
+WITNESSES = [
+    _pwl("hessian-cyclic-on-linear-0,1,2", "pwl_hessian_cyclic_affine_witness", "hess", 1, 0, True, [0, 1, 1], 6),
+    _pwl("hessian-open-on-linear-0,1,2", "pwl_hessian_cyclic_affine_witness", "hess", 1, 0, False, [0, 1, 1], 0),
+    _pwl("wrinkle-cyclic-on-quadratic-0,1,4,9", "pwl_wrinkle_cyclic_quadratic_witness", "wrinkle", 1, 0, True,
+         [0, 1, 3, 5], 48),
+    _pwl("wrinkle-open-on-quadratic-0,1,4,9", "pwl_wrinkle_cyclic_quadratic_witness", "wrinkle", 1, 0, False,
+         [0, 1, 3, 5], 0),
+    _pwl("hessian-cyclic-l2-on-linear-0,1,2", "pwl_cyclic_affine_more_witnesses", "hess", 0, 1, True, [0, 1, 1], 18),
+    _pwl("wrinkle-cyclic-on-linear-0,1,2", "pwl_cyclic_affine_more_witnesses", "wrinkle", 1, 0, True, [0, 1, 1], 12),
+    _pwl("laplacian-cyclic-on-constant", "pwl_laplacian_const_any", "lap", 1, 1, True, [5, 0, 0, 0], 0),
+    _lat("torsion-list-1,1", "torsion_list_not_additive", "tor", [1, 1], 0, 3),
+    _lat("torsion-list-2,2", "torsion_list_not_additive", "tor", [2, 2], 0, 12),
+    _lat("torsion-list-3,3-is-27-not-15", "torsion_list_not_additive", "tor", [3, 3], 0, 27),
+    _lat("torsion-scalar-1", "torsion_list_not_additive", "tor", 1, 0, 3),
+    _lat("torsion-scalar-2", "torsion_list_not_additive", "tor", 2, 0, 6),
+    _lat("torsion-scalar-3", "torsion_list_not_additive", "tor", 3, 0, 9),
+    _lat("torsion-negative-list", "torsion_neg_list_witness", "tor", [-1, 1], 0, -3),
+    _lat("torsion-negative-scalar-raises", "torsion_neg_list_witness", "tor", -1, 0, "ERR ValueError"),
+    _lat("laplacian-negative-list", "laplacian_neg_witness", "lap", [-1, 1], 0, -4),
+    _lat("laplacian-negative-scalar", "laplacian_neg_witness", "lap", -1, 0, -14),
+]
+
+
+def parse_witness_case(c):
+  c = dict(c)
+  if c["sort"] == "lat":
+    c["w"] = [[Fraction(v) for v in row] for row in c["w"]]
+    c["l1"], c["l2"] = amt_parse(c["l1"]), amt_parse(c["l2"])
+  else:
+    c["cols"] = [[Fraction(v) for v in col] for col in c["cols"]]
+    c["l1"], c["l2"] = Fraction(c["l1"]), Fraction(c["l2"])
+  return c
+
+
+def real_witness(case):
+  import tensorflow as tf
+  if case["sort"] == "lat":
+    wt = tf.constant(np.array([[float(v) for v in row] for row in case["w"]], dtype=np.float64), dtype=tf.float64)
+    return {api: call_lat(case["which"], api, case["sizes"], case["l1"], case["l2"], wt) for api in ("layer", "lib")}
+  rows = len(case["cols"][0])
+  x = np.array([[float(col[i]) for col in case["cols"]] for i in range(rows)], dtype=np.float64)
+  return {"layer": call_pwl(case["which"], case["l1"], case["l2"], case["cyc"], tf.constant(x, dtype=tf.float64))}
+
+
+def witness_lines(case):
+  if case["sort"] == "lat":
+    flat = [v for row in case["w"] for v in row]
+    return ["reg.lat.%s %s %d %s %s %s" % (case["which"], il(case["sizes"]), case["units"], amt_tok(case["l1"]),
+                                           amt_tok(case["l2"]), frl(flat))]
+  return ["reg.pwl.%s %s %s %d %s" % (case["which"], fr(case["l1"]), fr(case["l2"]), int(case["cyc"]),
+                                       frl2(case["cols"]))]
+
+
+def check_witness(ctx, case, real, replies):
+  """the numbers of the counter-witness theorems: the model returns them exactly (they are `decide`d in Lean) and
+  the real code returns them too (small integers: exact in float up to the rounding of sqrt(a)*sqrt(a))."""
+  name = "witness." + case["name"]
+  key = dict(reg="witness", witness=case["name"])
+  exp = case["expect"]
+  toks = replies[0].split(" ")
+  model = "ERR " + toks[1] if toks[0] == "ERR" else Fraction(toks[0])
+  ctx.count("witness:" + case["name"])
+  if model != (exp if isinstance(exp, str) else Fraction(exp)):
+    ctx.disagree(name + ".model_vs_theorem", case, exp, str(model), "driver value != value proved in " + case["theorem"])
+  else:
+    ctx.agree(name + ".model_vs_theorem")
+  for api, r in real.items():
+    ok = (r == exp) if (isinstance(exp, str) or isinstance(r, str)) else abs(r - float(exp)) <= 1e-12 * max(1.0, abs(exp))
+    if ok:
+      ctx.agree(name)
+    else:
+      ctx.disagree(name, case, r, exp, "real code (%s) != value of the counter-witness theorem %s" % (api, case["theorem"]))
+      ctx.fail("witness_value", key, case, r, "expected %r (theorem %s)" % (exp, case["theorem"]))
+  ctx.case(sig=("witness", case["name"]), nontrivial=True, sample=None)
+
+
 # ---------------------------------------------------------------- run / replay
 def run_cases(ctx, cases):
   lines, items = [], []
   for case in cases:
     if case["family"] == "lattice":
       real, ls = real_lattice(case), lattice_lines(case)
+    elif case["family"] == "witness":
+      real, ls = real_witness(case), witness_lines(case)
     else:
       real, ls = real_pwl(case), pwl_lines(case)
     items.append((case, real, len(lines), len(ls)))
@@ -454,12 +730,14 @@ def run_cases(ctx, cases):
     if any(r == "bad-op" for r in replies[pos:pos + k]):
       ctx.disagree("driver", case, None, replies[pos:pos + k], "driver rejected the op")
       continue
-    (check_lattice if case["family"] == "lattice" else check_pwl)(ctx, case, real, replies[pos:pos + k])
+    dict(lattice=check_lattice, pwl=check_pwl, witness=check_witness)[case["family"]](ctx, case, real,
+                                                                                    replies[pos:pos + k])
 
 
 def run(ctx):
   rng = ctx.rng
-  cases = [gen_lattice_case(rng) for _ in range(ctx.n(260, 6000))]
+  cases = [dict(w) for w in WITNESSES]
+  cases += [gen_lattice_case(rng) for _ in range(ctx.n(260, 6000))]
   cases += [gen_pwl_case(rng) for _ in range(ctx.n(400, 12000))]
   run_cases(ctx, cases)
 
@@ -467,5 +745,5 @@ def run(ctx):
 def replay(ctx, failure):
   """Re-executes one recorded failing case on the current tree."""
   c = failure["case"]
-  case = parse_lattice_case(c) if c["family"] == "lattice" else parse_pwl_case(c)
+  case = dict(lattice=parse_lattice_case, pwl=parse_pwl_case, witness=parse_witness_case)[c["family"]](c)
   run_cases(ctx, [case])
